@@ -98,7 +98,7 @@ func (l *lexer) Next() Token {
 		endPos := l.endPos()
 		pos := ast.NewPosition(
 			l.memoryGauge,
-			l.endOffset-1,
+			l.lastRuneOffset(),
 			endPos.line,
 			endPos.column,
 		)
@@ -353,11 +353,22 @@ func (l *lexer) emitError(err error) {
 	endPos := l.endPos()
 	rangeStart := ast.NewPosition(
 		l.memoryGauge,
-		l.endOffset-1,
+		l.lastRuneOffset(),
 		endPos.line,
 		endPos.column,
 	)
 	l.emit(TokenError, err, rangeStart, false)
+}
+
+// lastRuneOffset returns the offset of the first byte of the last rune that was read.
+// The rune might consist of multiple bytes, e.g. an unrecognized character.
+func (l *lexer) lastRuneOffset() int {
+	if l.endOffset > len(l.input) {
+		// EOF
+		return l.endOffset - 1
+	}
+	_, width := utf8.DecodeLastRune(l.input[l.startOffset:l.endOffset])
+	return l.endOffset - max(width, 1)
 }
 
 func (l *lexer) scanSpace() (containsNewline bool) {
